@@ -1170,6 +1170,9 @@ func (ctx *EvalCtx) call(e *CExpr) TV {
 			ctx.fail("pre() only inside loop invariants")
 		}
 		return ctx.with(ctx.pre).eval(e.Args[0])
+	case "confined":
+		// confined(x): x is not shared with other threads yet (meaningful to the discipline sweep only)
+		return boolTV(tTrue)
 	case "held":
 		a, _ := ctx.addrOf(e.Args[0])
 		return boolTV(mkSelect(vc.comp(ctx.st, "held", "(Array Int Bool)"), a))
